@@ -35,6 +35,7 @@ type HandleObs struct {
 	Cls  string `json:"cls"` // none | ok | closed | err
 	C0   []int  `json:"c0"`
 	C1   []int  `json:"c1"`
+	C2   []int  `json:"c2"`
 	Dd   bool   `json:"dd"`   // collection c1 has the design document
 	Has1 bool   `json:"has1"` // ListDataStores lists collection c1
 }
@@ -104,8 +105,8 @@ func classifyOpen(err error) string {
 }
 
 func lifeColl(c string) sgbucket.DataStoreName {
-	if c == "c0" {
-		return dsName("c0")
+	if c == "c0" || c == "c2" {
+		return dsName(c)
 	}
 	return dsName("c1")
 }
@@ -243,13 +244,13 @@ func (lr *lifeRun) exec(a *LifeAct) (string, string) {
 }
 
 func (lr *lifeRun) probe(b *rosmar.Bucket) HandleObs {
-	o := HandleObs{Cls: "ok", C0: []int{}, C1: []int{}}
+	o := HandleObs{Cls: "ok", C0: []int{}, C1: []int{}, C2: []int{}}
 	cls, _ := withTimeout(3*time.Second, func() (string, error) {
 		names, err := b.ListDataStores()
 		if err != nil {
 			return classify(err), err
 		}
-		for _, c := range []string{"c0", "c1"} {
+		for _, c := range []string{"c0", "c1", "c2"} {
 			present := false
 			for _, n := range names {
 				if n.ScopeName() == lifeColl(c).ScopeName() && n.CollectionName() == lifeColl(c).CollectionName() {
@@ -277,10 +278,13 @@ func (lr *lifeRun) probe(b *rosmar.Bucket) HandleObs {
 					return classify(err), err
 				}
 				if ok {
-					if c == "c0" {
+					switch c {
+					case "c0":
 						o.C0 = append(o.C0, id)
-					} else {
+					case "c1":
 						o.C1 = append(o.C1, id)
+					default:
+						o.C2 = append(o.C2, id)
 					}
 				}
 			}
@@ -332,7 +336,7 @@ func (lr *lifeRun) observe(line *LifeLine, prevN map[string]int, baseGor int) {
 		if b := lr.hs[h]; b != nil {
 			line.Hs[h] = lr.probe(b)
 		} else {
-			line.Hs[h] = HandleObs{Cls: "none", C0: []int{}, C1: []int{}}
+			line.Hs[h] = HandleObs{Cls: "none", C0: []int{}, C1: []int{}, C2: []int{}}
 		}
 	}
 	line.Fd = map[string]FeedLifeObs{}
